@@ -346,8 +346,9 @@ def run(model: RepoModel, rep, tier: str):
                 # the discarded value comes from a list filled with `<node>.path` under an is_terminal test
                 for k in cfg.g.nodes:
                     for c2 in cfg.calls_at(k):
+                        # ... inside the per-element loop (the test of the root outside it only covers the empty path)
                         if isinstance(c2.func, ast.Attribute) and c2.func.attr == "append" and c2.args and _attr_named(c2.args[0], "path") \
-                                and guarded_by(k, "is_terminal"):
+                                and guarded_by(k, "is_terminal") and any(k in body for body in cfg.loop_body_nodes.values()):
                             evict = True
     insert = False
     for n in cfg.g.nodes:
@@ -465,8 +466,10 @@ MUTANTS = [
      "PathManager.remove_path::view"),
     ("no-children-check", FILE, _m("PathTrie", "add_path", lambda st: isinstance(st, ast.If) and _attr_named(st.test, "children")),
      "proper prefix of stored"),
-    ("no-eviction", FILE, _m("PathTrie", "add_path", lambda st: isinstance(st, ast.Expr) and isinstance(st.value, ast.Call)
-                             and isinstance(st.value.func, ast.Attribute) and st.value.func.attr == "append"), "stored proper prefix"),
+    ("no-eviction-of-the-empty-path", FILE, _m("PathTrie", "add_path", lambda st: isinstance(st, ast.If) and "self.root" not in ast.unparse(st.test) and "is_terminal" in ast.unparse(st.test)
+                                               and "len(path.path) > 0" in ast.unparse(st.test)), "the empty path is evicted"),
+    ("no-eviction", FILE, lambda src: src.replace("                # 找到一个严格前缀路径\n                paths_to_remove.append(node.path)", "                # 找到一个严格前缀路径\n                pass"),
+     "stored proper prefix"),
 ]
 
 
